@@ -94,6 +94,15 @@ def hostile_requests(rng, model, full: bool) -> typing.List[typing.Tuple[str, by
                        (b"h /umn 0\t", b""), (b"h /umn\x0b0", b""), (b"h\x0c/umn 0", b""), (b"h /umn 0\r", b"")):
         add("spartan-malformed", line + b"\r\n" + body, False)
         add("spartan-tls", line + b"\r\n" + body, True)
+    # complete requests without any 'name: value' header line, from clients that keep the connection open
+    for line in (b"GET / HTTP/1.0", b"GET /umn/one.txt HTTP/1.0", b"HEAD /umn HTTP/1.0", b"GET /nope HTTP/1.1", b"GET /wap/umn HTTP/1.0",
+                 b"GET /umn?searchrequest=x HTTP/1.0"):
+        for hdrs in (b"\r\n\r\n", b"\r\nnocolonline\r\n\r\n", b"\n\n", b"\r\n \r\n"):
+            for tls in (False, True):
+                add("keepopen:http-no-headers", line + hdrs, tls)
+    for line in (b"/umn\r\n", b"/umn\t+\r\n", b"/umn/one.txt\t!\r\n", b"h /umn 0\r\n", b"h /umn 3\r\nabc", b"/nope\r\n", b"/umn\tq\r\n"):
+        add("keepopen:one-line", line, False)
+    add("keepopen:gemini", b"gemini://h/umn\r\n", True)
     for _ in range(120):
         add("random", reqs.random_line(rng), rng.random() < 0.4)
     add("empty-connection", b"", False)
@@ -171,16 +180,22 @@ def run_site(chk: Check, sc: Scratch, idx: int, nhist: int, histlen: int) -> Non
                         continue
                     data, tls = reqs.render(view, o.selector)
                     good.append(("good:" + view, data, tls, o, view))
-            for label, data, tls, o, view in good:
+            for gi, (label, data, tls, o, view) in enumerate(good):
                 driver.clean_server_files(root)
-                resp = site.request(data, tls=tls)
+                # every third well-formed request comes from a client that keeps its side of the connection
+                # open (as browsers do): the reply must not wait for an end-of-file (a handler stuck reading
+                # is reported by the hang watchdog).  Spartan announces its body length, so it qualifies too.
+                keep_open = gi % 3 == 0
+                resp = site.request(data, tls=tls, half_close=not keep_open)
+                if keep_open:
+                    chk.count("requests_from_clients_that_keep_the_connection_open")
                 v = run.judge(label, data, resp, expect=o, view=view, ctx=hl_name)
                 if v is not None:
                     baseline[(data, tls)] = validate.normalize_ts(resp.data)
             chk.count("wellformed_requests", len(good))
             # B: hostile requests (each also on a pristine tree)
             for label, data, tls in hostile_requests(rng, model, full):
-                resp = site.request(data, tls=tls)
+                resp = site.request(data, tls=tls, half_close=not label.startswith("keepopen:"))
                 run.judge(label, data, resp, ctx=hl_name)
                 chk.count("hostile_requests")
             # C: histories on one persistent tree
